@@ -618,7 +618,12 @@ pub trait AutoMerge: RemoteSyncHandler {
             return Ok(AutoMergeStatus::RewindLocal(remote));
         }
 
-        // Combine the event records
+        // Combine the event records; an identical event made
+        // independently on both sides is only included once
+        let remote = remote
+            .into_iter()
+            .filter(|r| !local_commits.contains(r.commit()))
+            .collect::<Vec<_>>();
         local.extend(remote);
 
         // Sort by time so the more recent changes will win (LWW)
